@@ -1437,8 +1437,9 @@ def collect_core(prop, tier, fnd, cov):
     fulltable_into(prop, tier, fnd, cov)
     drv = stage_drive(tier)
     collect_drive(prop, drv, fnd, cov)
-    if prop == "C02":
-        # "at every point": also in the cache a leaked drain leaves behind (forget segments, shared with C17)
+    if prop in ("C01", "C02"):
+        # "after every public operation" / "at every point": also in the cache a leaked drain leaves
+        # behind and in every later call on it (forget segments, shared with C17)
         import stages_ext
         idump = stage_dump(tier, module="MC_Iter.tla", base="MC_IterDump", name="dump-iter",
                            segments=(("forget", 1500 if tier == "quick" else 4000),))
